@@ -333,6 +333,9 @@ def read_cgsmiles(pattern):
                         # store the previous anchor so we can do the math for nested
                         # branches
                         prev_anchor = ref_anchor
+                    # all branches of this repetition added; the next
+                    # repetition starts from the base anchor
+                    prev_node = base_anchor
                 # all branches added; then go back to the base anchor
                 prev_node = base_anchor
             #================================================
